@@ -5,10 +5,13 @@
 (* produces no verdict about the code; a counterexample here is a candidate *)
 (* scenario.  Orig = TRUE transcribes the algorithm as found (long word     *)
 (* broken on a partly filled line; wide grapheme placed in the last column) *)
-(* Orig = FALSE the repaired algorithm.                                     *)
+(* Orig = FALSE the repaired algorithm.  RunCut = TRUE: an over-long line   *)
+(* segment is not cut inside a run of letters that fits on a line of its    *)
+(* own (the line ends before the run); FALSE = cut wherever the line is     *)
+(* full, as found before that repair.                                       *)
 EXTENDS WrapRel
 
-CONSTANT Orig
+CONSTANTS Orig, RunCut
 
 \* line grapheme of an input grapheme
 AsLine(x) == <<IG(x), IW(x), x[3], ISt(x)>>
@@ -35,6 +38,19 @@ Take(word, i, w, width) ==
   ELSE (IF i > 1 /\ w + IW(word[i]) > width THEN i - 1
         ELSE Take(word, i + 1, w + IW(word[i]), width))
 
+\* the cut after n graphemes of a word, moved in front of the run of letters it would split
+\* when that run fits on a line of its own and is not the head of the word
+RECURSIVE RunLo(_, _)
+RunLo(word, i) == IF i > 1 /\ ILt(word[i - 1]) THEN RunLo(word, i - 1) ELSE i
+RECURSIVE RunHi(_, _)
+RunHi(word, i) == IF i < Len(word) /\ ILt(word[i + 1]) THEN RunHi(word, i + 1) ELSE i
+Cut(word, n, width) ==
+  IF ~RunCut \/ n < 1 \/ n >= Len(word) THEN n
+  ELSE IF ~(ILt(word[n]) /\ ILt(word[n + 1])) THEN n
+  ELSE LET a == RunLo(word, n)
+           b == RunHi(word, n + 1)
+       IN IF a > 1 /\ SumIWs(SubSeq(word, a, b)) <= width THEN a - 1 ELSE n
+
 \* one Scan call from a fresh token; returns [tok, rest]
 RECURSIVE Fill(_, _, _, _)
 Fill(tok, w, rest, width) ==
@@ -49,7 +65,7 @@ Fill(tok, w, rest, width) ==
       spW == SumIWs(trsp)
   IN IF wordW > width THEN
         IF ~Orig /\ tok # <<>> THEN [tok |-> tok, rest |-> rest]
-        ELSE LET n == Take(word, 1, w, width) IN
+        ELSE LET n == Cut(word, Take(word, 1, w, width), width) IN
              [tok |-> tok \o SubSeq(word, 1, n),
               rest |-> SubSeq(word, n + 1, nword) \o trsp \o after]
      ELSE IF w + wordW > width THEN [tok |-> tok, rest |-> rest]
